@@ -94,6 +94,8 @@ class PreludeMixin:
             return it
         if isinstance(k, (KDict, KSet)):
             return self.snapshot_keys(st, it)
+        if isinstance(it, tuple) and it and it[0] == 'view':
+            it = ('viewsnap', it[1], it[2], self.snapshot_keys(st, it[2]))
         if isinstance(it, TupleVal):
             if elem_kind is None:
                 ek = None
@@ -126,6 +128,17 @@ class PreludeMixin:
         item = ops.coerce(item, ek)
         for ra, t in zip(lst.t[1:], item.t):
             st.assume(z3.ForAll([j], z3.Implies(z3.And(j >= 0, j < n), z3.Select(ra, j) == t), patterns=[z3.Select(ra, j)]))
+        if isinstance(it, tuple) and it and it[0] == 'viewsnap':
+            # inverse direction for materialised dict views: the entry of key k sits at position idx(k)
+            _, mode, d, keys = it
+            idx = self.snapshot_idx[keys.t[1].get_id()]
+            kk = z3.Const(fresh_name('k'), d.kind.key.sorts()[0])
+            dom = d.t[0]
+            if mode == 'values':
+                val = ops.dict_get(d, SVal(d.kind.key, [kk]))
+                st.assume(z3.ForAll([kk], z3.Implies(z3.Select(dom, kk),
+                                                     z3.And(*[z3.Select(ra, idx(kk)) == t for ra, t in zip(lst.t[1:], val.t)])),
+                                    patterns=[z3.Select(dom, kk)]))
         return lst
 
     # ------------------------------------------------------------------ comprehensions
